@@ -20,6 +20,8 @@ Block grammar (one directive per line; payloads between <<< and >>>):
   pre <<< ... >>>                ghost text (attribute) in front of the whole item
   attr <fn> <<< ... >>>          attribute before the fn (e.g. #[verifier::external_body]; logged)
   start <fn> <<< ... >>>         ghost text at the start of the body
+  prologue <fn> <<< stmt >>>     R9-interior: an executable statement at the start of the body (moves a by-value self
+                                 into a mutable local); logged and erased like every rewrite
   loop <fn> <k> <<< ... >>>      invariant/decreases for the k-th loop of fn (source order, 1-based)
   beforeloop|loopstart|loopend|afterloop <fn> <k> <<< ... >>>   ghost text right before loop k / at the start / at the end of its body / right after it
   forit <fn> <k> <name>          names the ghost iterator of the k-th loop, which must be a `for`
@@ -1041,6 +1043,12 @@ def build_unit(unit_path, repo=REPO):
                 it.d_attr(args[0], payload)
             elif name == "start":
                 it.d_start(args[0], payload)
+            elif name == "prologue":
+                # R9-interior: prologue <fn> <<< exec statement >>> -- an executable statement put at the start of the body
+                # (used to move a by-value `self` into a mutable local when a `&self` method with interior mutation is
+                # checked as the `&mut self` method it behaves as).  Logged like every rewrite; erased by `erase`.
+                bo_ = it.fn_span(args[0])[2]
+                it.rewrite(bo_ + 1, bo_ + 1, "\n" + payload.strip() + "\n", "R9-interior")
             elif name == "pre":
                 it.ghost(0, payload + "\n")
             elif name == "loop":
